@@ -10,7 +10,7 @@ from ..model import AnalysisError, unparse
 from ..report import RuleResult
 from ..roles import bound_from, calls, returned_names
 from ..tables import WriterTables
-from ._c01_paths import Paths, Sym, attr_name, default_of, kind_of, kw, make_call_eval, never_none_fields, record_fields, show_set, sources
+from ._c01_paths import Paths, Sym, attr_name, conjuncts, neg, default_of, kind_of, kw, make_call_eval, never_none_fields, record_fields, show_set, sources
 from .c06 import rule_own as _c06_own
 
 
@@ -439,6 +439,71 @@ def _unpacked(call):
     return out
 
 
+def _is_empty_container(e):
+    return isinstance(e, (ast.Dict, ast.List, ast.Set)) and not (e.keys if isinstance(e, ast.Dict) else e.elts) or \
+        isinstance(e, ast.Call) and isinstance(e.func, ast.Name) and e.func.id in ("dict", "WeakValueDictionary") and not e.args and not e.keywords
+
+
+def _uid_registries(ctx, ws) -> list:
+    """The uid registries of the workspace, read from the code: the fields __init__ binds to an empty dict that `register` (its
+    private helpers and the literal tables they consult included) hands to the registration."""
+    init, reg = ws.methods.get("__init__"), ws.methods.get("register")
+    if init is None or reg is None:
+        raise AnalysisError("anchor Workspace.__init__ / Workspace.register not found")
+    empty = set()
+    for st in ast.walk(init.node):
+        if isinstance(st, (ast.Assign, ast.AnnAssign)) and st.value is not None and _is_empty_container(st.value):
+            for t in (st.targets if isinstance(st, ast.Assign) else [st.target]):
+                if isinstance(t, ast.Attribute) and isinstance(t.value, ast.Name) and t.value.id == "self":
+                    empty.add(t.attr)
+    seen, work, named = set(), [reg], set()
+    while work:
+        fn = work.pop()
+        if fn in seen or len(seen) > 6:
+            continue
+        seen.add(fn)
+        v = ctx.view(fn)
+        for x in ast.walk(v.node):
+            if isinstance(x, ast.Attribute) and isinstance(x.value, ast.Name) and x.value.id == "self":
+                named.add(x.attr)
+            elif isinstance(x, ast.Constant) and isinstance(x.value, str):
+                named.add(x.value)
+            elif isinstance(x, ast.Call):
+                try:
+                    callee = ctx.norm._callee(v, x)
+                except Exception:  # pragma: no cover
+                    callee = None
+                if callee is not None and callee.cls is not None and ws in callee.cls.mro:
+                    work.append(callee)
+    regs = sorted(empty & named)
+    if len(regs) < 3:
+        raise AnalysisError(f"Workspace: uid registries not recognised (found {regs})")
+    return regs
+
+
+def _reset_nodes(P, field):
+    """CFG nodes after which self.<field> is an empty container: `self.<field> = {}`, `setattr(self, '<field>', {})`, or the
+    head of a loop over a literal sequence of names holding '<field>' whose body does `setattr(self, <name>, {})`."""
+    out = []
+    for n in P.g.nodes:
+        if n.kind == "stmt":
+            st = n.ast
+            if isinstance(st, (ast.Assign, ast.AnnAssign)) and st.value is not None and _self_store(st, field) and _is_empty_container(P.X(st.value)):
+                out.append(n)
+            elif isinstance(st, ast.Expr) and _is_setattr_empty(P, st.value, repr(field)):
+                out.append(n)
+        elif n.kind == "foriter" and isinstance(n.stmt.target, ast.Name):
+            names = P._literal_members(P.X(n.stmt.iter))
+            if names and field in names and any(isinstance(b, ast.Expr) and _is_setattr_empty(P, b.value, n.stmt.target.id, raw=True) for b in n.stmt.body):
+                out.append(n)
+    return out
+
+
+def _is_setattr_empty(P, c, name_text, raw=False):
+    return isinstance(c, ast.Call) and isinstance(c.func, ast.Name) and c.func.id == "setattr" and len(c.args) == 3 and unparse(c.args[0]) == "self" \
+        and (unparse(c.args[1]) if raw else P.text(c.args[1])) == name_text and _is_empty_container(P.X(c.args[2]))
+
+
 def _pairs_loop(P, loop):
     """A loop over the (key, value) pairs of a mapping, however it is spelled: `for k, v in M.items()`, or `for k in M` /
     `for k in M.keys()` with the value read as `M[k]`.  Returns (key local, locals holding the value, text of `M[<key>]`), else None.
@@ -608,6 +673,19 @@ def rule_flow(ctx) -> RuleResult:
     chk(ok, "open(): every path that opens the file calls fetch_or_create_root()", "Workspace", "open", "a path opens the file without loading the tree", op0.where,
         "after re-opening, the workspace lists no entities")
 
+    # every uid registry is emptied between opening the file and loading the tree: what is loaded is what the file holds, not an
+    # entity / type object of the previous session that is still alive (its attributes may be stale; liveness depends on GC)
+    regs = _uid_registries(ctx, ws)
+    stale = []
+    for r in regs:
+        resets = _reset_nodes(Q, r)
+        if not resets or Q.reaches(Q.after(stores), [n for n in loads if n not in resets], stop=resets):
+            stale.append(r)
+    chk(bool(loads) and not stale, f"open(): registries {regs} are emptied after the file is opened and before the tree is loaded", "Workspace", "open",
+        "a uid registry keeps the entries of the previous session when the file is re-opened", op0.where,
+        f"open() on a workspace that was closed re-uses the live objects registered in {stale} instead of what the file holds: the re-opened tree shows "
+        "stale attributes (which ones depends on garbage collection)")
+
     fr0, fr = anchor(ws, "fetch_or_create_root")
     fc0, fc = anchor(ws, "fetch_children")
     ent_p, rec_p = fc0.params[1], fc0.params[2]
@@ -728,4 +806,97 @@ def rule_flow(ctx) -> RuleResult:
     return res
 
 
-RULES = [rule_schema, rule_fetchkey, rule_lazy, rule_pgw, rule_own, rule_flow]
+def rule_unlink(ctx) -> RuleResult:
+    res = RuleResult(
+        "C01.UNLINK",
+        "C01",
+        "what is removed live is removed from the file: Workspace.remove_children unlinks every child of the list from the container of "
+        "its own kind (property groups through add_or_update_property_group(remove=True)); H5Writer.remove_entity deletes the node of an "
+        "entity whatever `parent` is, and also its link when a parent is given",
+        floor=6,
+    )
+    p = ctx.p
+    ws, W = p.cls("Workspace"), p.cls("H5Writer")
+
+    def chk(ok, inst, cls, member, construct, where, msg):
+        res.inst(inst, nontrivial=True, ok=ok)
+        if not ok:
+            res.find(cls, member, construct, where, msg)
+
+    # --- Workspace.remove_children(parent, children)
+    rc0 = ws.methods.get("remove_children")
+    if rc0 is None or len(rc0.params) < 3:
+        raise AnalysisError("anchor Workspace.remove_children(parent, children) not found")
+    rc = ctx.view(rc0)
+    par_p, list_p = rc0.params[1], rc0.params[2]
+    P0 = Paths(rc.node)
+    loops = [lp for lp in _loops(rc.node) if isinstance(lp.target, ast.Name) and P0.iter_text(lp) == list_p]
+    if not loops:
+        raise AnalysisError("Workspace.remove_children: loop over the children not found")
+    unlinks, per_child, covered = 0, True, {}
+    kinds = {"Group": p.cls("Group"), "ObjectBase": p.cls("ObjectBase"), "Data": p.cls("Data", "data.data"), "PropertyGroup": p.cls("PropertyGroup")}
+    for lp in loops:
+        roles = {lp.target.id: "R_child", par_p: "R_parent"}
+        P = Paths(rc.node, roles)
+        is_unlink = lambda c, P=P: attr_name(c) == "_io_call" and len(c.args) > 3 and P.text(c.args[0]) == "H5Writer.remove_child" and P.text(c.args[3]) == "R_parent"  # noqa: E731
+        for n in P.call_nodes(is_unlink, within=lp):
+            for c in [c for e in P.exprs(n) for c in ast.walk(e) if isinstance(c, ast.Call) and is_unlink(c)]:
+                unlinks += 1
+                # provenance: the uid AND the container name both come from the child of this iteration
+                kind_src = {x.id for x in ast.walk(P.X(c.args[2])) if isinstance(x, ast.Name)}
+                per_child = per_child and P.text(c.args[1]) == "R_child.uid" and "R_child" in kind_src
+        for kname, K in kinds.items():
+            Pk = Paths(rc.node, roles, kinds={"R_child": kind_of(p, K)})
+            head, nxt, body = Pk.loop_nodes(lp)
+            if Pk.loop_source(lp)[1] is False:
+                continue  # this loop does not see children of this kind
+            if kname == "PropertyGroup":
+                tg = Pk.call_nodes(lambda c, Pk=Pk: attr_name(c) == "_io_call" and len(c.args) > 1 and Pk.text(c.args[0]) == "H5Writer.add_or_update_property_group" and Pk.text(c.args[1]) == "R_child"
+                                   and kw(c, "remove") is not None and _is_true(Pk.X(kw(c, "remove"))), within=lp)
+            else:
+                tg = Pk.call_nodes(lambda c, Pk=Pk: attr_name(c) == "_io_call" and len(c.args) > 3 and Pk.text(c.args[0]) == "H5Writer.remove_child" and Pk.text(c.args[3]) == "R_parent", within=lp)
+            covered[kname] = covered.get(kname, False) or bool(tg) and Pk.must(body, tg, fail=[nxt])
+    chk(unlinks > 0 and per_child, "remove_children: remove_child(<child>.uid, <container of that child>, parent)", "Workspace", "remove_children",
+        "the link container is not derived from the child being unlinked", rc0.where,
+        "children of another kind than the one the container name was computed from stay linked under the parent in the file: they are back after re-opening")
+    missing = sorted(k for k in kinds if not covered.get(k))
+    chk(not missing, f"remove_children: every child of kind {sorted(kinds)} is unlinked on every path of the loop", "Workspace", "remove_children",
+        f"children of kind {missing} are not unlinked on every path", rc0.where, "a detached child stays linked in the file and is back after re-opening")
+
+    # --- H5Writer.remove_entity(file, uid, ref_type, parent=None)
+    re0 = W.methods.get("remove_entity")
+    if re0 is None or len(re0.params) < 4:
+        raise AnalysisError("anchor H5Writer.remove_entity(file, uid, ref_type, parent) not found")
+    rv = ctx.view(re0)
+    uid_p, ref_p, par_p = re0.params[-3], re0.params[-2], re0.params[-1]
+    for cont in ("Data", "Groups", "Objects"):
+        P = Paths(rv.node, {uid_p: "R_uid", par_p: "R_parent"}, consts={ref_p: cont})
+        # the node of the entity: `del <flat container>[<uid string>]`, the container being indexed by ref_type
+        dels = P.stmt_nodes(lambda s: isinstance(s, ast.Delete) and any(
+            isinstance(t, ast.Subscript) and P.text(t.slice) == "as_str_if_uuid(R_uid)" and isinstance(P.X(t.value), ast.Subscript) and unparse(P.X(t.value).slice) == ref_p for t in s.targets))
+        nec = P.necessary([P.g.entry], dels) if dels else frozenset([False])
+        guard = frozenset(f for f in nec if f[0] == "lit" and f[2] and f[1].startswith("as_str_if_uuid(R_uid) in "))
+        ok = bool(dels) and nec == guard and P.must([P.g.entry], dels, guard | _present(P, dels))
+        chk(ok, f"H5Writer.remove_entity({cont}): the node is deleted whenever it exists (conditions: {show_set(nec)})", "H5Writer", "remove_entity",
+            "the node of the entity is deleted only under an extra condition", re0.where,
+            "a removed entity keeps its node in the flat container: its uid stays taken in the file, a later entity with that uid is not written and the deleted content is back after re-opening")
+        links = P.call_nodes(lambda c: attr_name(c) == "remove_child" and len(c.args) > 3 and P.text(c.args[1]) == "R_uid" and P.text(c.args[3]) == "R_parent")
+        ok = bool(links) and P.must([P.g.entry], links, P.conj("R_parent is not None") | guard | _present(P, dels))
+        chk(ok, f"H5Writer.remove_entity({cont}): with a parent, the link under the parent is removed too", "H5Writer", "remove_entity",
+            "the link under the given parent is not removed on every path", re0.where, "the removed entity stays listed under its parent in the file")
+    return res
+
+
+def _present(P, dels) -> frozenset:
+    """The membership tests `<uid string> in <container>` that guard the given deletions (assumed true: the node exists)."""
+    out = set()
+    for n in P.g.nodes:
+        if n.kind == "test":
+            for f in ast.walk(n.ast):
+                if isinstance(f, ast.Compare) and len(f.ops) == 1 and isinstance(f.ops[0], (ast.In, ast.NotIn)) and P.text(f.left) == "as_str_if_uuid(R_uid)":
+                    g = P.formula(f)
+                    out |= conjuncts(g if isinstance(f.ops[0], ast.In) else neg(g))
+    return frozenset(x for x in out if x is not False)
+
+
+RULES = [rule_schema, rule_fetchkey, rule_lazy, rule_pgw, rule_own, rule_flow, rule_unlink]
